@@ -97,7 +97,13 @@ func (n *LocalNode) executeJoin(peer chord.VNode) (predecessor chord.VNode, succ
 
 func (n *LocalNode) RequestToJoin(joiner chord.VNode) (chord.VNode, []chord.VNode, error) {
 	succ, err := n.FindSuccessor(joiner.ID())
-	if err != nil {
+	switch err {
+	case nil:
+	case chord.ErrNodeGone, chord.ErrNodeNoSuccessor:
+		// the lookup was routed through a node that is leaving, or is still joining
+		// and has not learned its neighbours yet. let the joiner retry
+		return nil, nil, chord.ErrJoinInvalidState
+	default:
 		return nil, nil, err
 	}
 	if succ.ID() == joiner.ID() {
